@@ -102,6 +102,7 @@ func keyStrings() []string {
 
 type plan struct {
 	ojVecs     []optVec // in-memory oj vectors
+	indentVecs []optVec // indent-chains family: every indent of gens.IndentValues and Tab, with and without Sort
 	ojSm       []optVec // the three basic layouts only (largest tree classes of the thorough tier)
 	ojTiny     []optVec // ojSm with HTMLUnsafe left at its default (6-node trees: escaping does not depend on shape)
 	prettyTiny []optVec // prettySm with HTMLUnsafe left at its default
@@ -131,6 +132,12 @@ func newPlan(quick bool) *plan {
 	layouts := []layout{{0, false}, {2, false}, {0, true}}
 	if !quick {
 		layouts = []layout{{0, false}, {1, false}, {2, false}, {4, false}, {130, false}, {0, true}, {2, true}}
+	}
+	for _, sorted := range []bool{false, true} {
+		for _, in := range gens.IndentValues {
+			p.indentVecs = append(p.indentVecs, optVec{Indent: in, Sort: sorted})
+		}
+		p.indentVecs = append(p.indentVecs, optVec{Tab: true, Sort: sorted})
 	}
 	for _, l := range layouts {
 		for _, b := range bools(4) {
@@ -268,6 +275,7 @@ func run(c *core.Ctx) {
 	}
 	keyFamily(each("keys", !c.Quick()))
 	gens.Chains([]any{nil, "", int64(1), "x"}, each("chains", true))
+	gens.IndentChains(each("indent-chains", false))
 	gens.Tables(c.Quick(), !c.Quick(), each("tables", true))
 	longFamily(each("long", false))
 }
@@ -389,6 +397,9 @@ func (r *runner) evalAll(t, v any, multi, fullPretty bool, fam, rep string) (fai
 			}
 		default:
 			ojv := r.plan.ojVecs
+			if fam == "indent-chains" {
+				ojv = r.plan.indentVecs
+			}
 			if r.smallOj {
 				ojv = r.plan.ojSm
 			}
